@@ -497,7 +497,8 @@ class Check(PropertyCheck):
                   "Connection close and content-length = body length = the page; the HTTP/1 send site Http1Server.send(ResponseProtocolError) is "
                   "modelled (h1ErrorReply: writable?, response started?, ErrorCode->status) and whatever it writes is proved to be exactly one such "
                   "response for a status 100..999 followed by close, never into a started response (h1_error_reply_wellformed). Model tied to the code byte-for-byte on "
-                  "generated (status, message) pairs, on the real Http1Server.send for every ErrorCode x started x writable, and on every format_error/make_error_response call made while real "
+                  "generated (status, message) pairs (formatError, makeErrorResponse, htmlEscape vs html.escape; the reference reader refParse is "
+                  "cross-checked against the harness's own framing reader on the real response, its truncation and a surplus byte), on the real Http1Server.send for every ErrorCode x started x writable, and on every format_error/make_error_response call made while real "
                   "HttpLayers (HTTP/1 and HTTP/2) are driven into their error paths; every page on the wire is scanned. The send site takes WHICH "
                   "head was relayed before the error as input (none / own 100 / 102 / 103 / 101 / final / final+body): proved that a page is written "
                   "only before any head, never after a 101 or a final head (error_page_only_before_any_head, wire_unchanged_after_101_or_final); "
@@ -810,9 +811,15 @@ class Check(PropertyCheck):
     def model_lines(self, case):
         if case["op"] == "fmt":
             m = hx(msg_of(case).encode("utf8", "replace"))
-            return [f"fmt {case['status']} {m}", f"resp {case['status']} {m}"]
+            lines = [f"fmt {case['status']} {m}", f"resp {case['status']} {m}", f"esc {m}"]
+            # the Lean reference reader (refParse) and the harness's own framing reader on the same bytes
+            for b in self.reader_inputs(case):
+                lines.append(f"parse {hx(b)}")
+            return lines
         if case["op"] == "err":
-            return [f"errh {int(case['canwrite'])} {relayed_status(case['head'])} {case['code']} " + hx(msg_of(case).encode("utf8", "replace"))]
+            mm = hx(msg_of(case).encode("utf8", "replace"))
+            return [f"errh {int(case['canwrite'])} {relayed_status(case['head'])} {case['code']} {mm}",
+                    f"err {int(case['canwrite'])} {int(relayed_status(case['head']) != 0)} {case['code']} {mm}"]
         if case["op"] == "errseq":
             fs = []
             for op in case["ops"]:
@@ -838,6 +845,21 @@ class Check(PropertyCheck):
         for p in self._own_pages(obs):
             if case["proto"] == "h2": out.append(f"h2hdr {p['status']}")
         return out
+
+    @staticmethod
+    def reader_inputs(case):
+        """byte strings both readers are asked about: the model-independent, input-derived expected response (built by the harness from
+        the real output length only where unavoidable is avoided: we take the REAL response), the same without its last byte, and
+        with one surplus byte"""
+        resp = _http1.make_error_response(case["status"], msg_of(case))
+        return [resp, resp[:-1], resp + b"x"]
+
+    @staticmethod
+    def harness_reader(b):
+        rs, left = parse_h1_stream(b)
+        if len(rs) == 1 and not left and not rs[0].get("established"):
+            return f"ok {rs[0]['status']} {hx(rs[0]['body'])}"
+        return "err"
 
     @staticmethod
     def _key(case):
@@ -869,9 +891,10 @@ class Check(PropertyCheck):
                 v.append("page" if any(e[0] == "page" for e in ev) else "nopage")
             return v
         if case["op"] == "err":
-            return [("nopage" if obs["sent_hex"] == "-" else obs["sent_hex"]) + (" close" if obs["closed"] else " open")]
+            return [("nopage" if obs["sent_hex"] == "-" else obs["sent_hex"]) + (" close" if obs["closed"] else " open")] * 2
         if case["op"] == "fmt":
-            return [obs["page_hex"], obs["resp_hex"]]
+            return [obs["page_hex"], obs["resp_hex"], hx(html.escape(msg_of(case)).encode("utf8", "replace"))] + \
+                   [self.harness_reader(b) for b in self.reader_inputs(case)]
         outs = [c[3] for c in obs["calls"]]
         v = list(outs)
         unmatched = 0
